@@ -26,6 +26,9 @@ def unwrap_place(pl):
 
 SIDE = {"LW", "RW", "UNI"}
 POS = {"NODE", "WORD", "END"}
+# MAPK_<side>: the value is (a reference to / an iterator over) maps keyed by ids of that side;
+# it is its own family and never takes part in comparisons
+MAPK = {"MAPK_LW", "MAPK_RW", "MAPK_UNI"}
 
 
 def family(k):
@@ -42,6 +45,7 @@ class KindSpec:
         self.returns = j["returns"]
         self.same_family = j["same_family"]
         self.strlit = j["string_literal_kinds"]
+        self.conversions = set(j.get("conversions", []))
 
 
 def fn_keys(crate, c):
@@ -171,6 +175,11 @@ class KindAnalysis:
                                 ks = {x for x in a if x in SIDE}
                             elif ca is not None:
                                 ks = {x for x in bk if x in SIDE}
+                        elif opn.startswith("Div"):
+                            # count of rows = len / row width: the side of the table survives
+                            # when the divisor is side-neutral
+                            if not {x for x in bk if x in SIDE}:
+                                ks = {x for x in a if x in SIDE}
                         # other arithmetic: no kind
                     elif k == "agg":
                         if rv.get("agg") == "tuple":
@@ -186,8 +195,8 @@ class KindAnalysis:
                     if not lhs["p"]:
                         changed |= add(lhs["l"], ks)
                         # tuple-typed moves keep per-field kinds
-                        if k == "use":
-                            pl = op_place(rv["op"])
+                        if k in ("use", "ref"):
+                            pl = op_place(rv["op"]) if k == "use" else rv["place"]
                             if pl is not None:
                                 for i in range(4):
                                     src = None
@@ -222,7 +231,18 @@ class KindAnalysis:
                     elif c is not None:
                         name = c.get("name") or ""
                         sp = strip_generics((c.get("resolved") or c)["path"])
-                        if t["args"] and not is_constructor_like(sp, name):
+                        if t["args"] and sp in self.spec.conversions:
+                            ks = {x for x in op_kind(t["args"][0]) if x in SIDE}
+                        elif t["args"] and name == "enumerate" and not dest["p"]:
+                            ik = self.source_index_kind(fa, t["args"][0])
+                            if ik:
+                                changed |= add((dest["l"], "#0"), {ik})
+                            changed |= add((dest["l"], "#1"), op_kind(t["args"][0]))
+                            ks = op_kind(t["args"][0])
+                        elif t["args"] and name in ("keys", "into_keys"):
+                            ks = {x[5:] for x in op_kind(t["args"][0]) if x in MAPK} or \
+                                {x for x in op_kind(t["args"][0]) if x not in MAPK}
+                        elif t["args"] and not is_constructor_like(sp, name):
                             ks = op_kind(t["args"][0])
                             # growth: push/insert/extend give the container the element's kind
                             if name in ("push", "insert", "extend", "push_str", "extend_from_slice",
@@ -398,6 +418,30 @@ class KindAnalysis:
                                "map keyed by %s ids is looked up with a %s value" % (
                                    "/".join(sorted(kk)), "/".join(sorted(hk)))
                                + ("" if ok else " - the id comes from the other side's id space"))
+                # membership tests in a collection whose elements have a known side
+                if c.get("name") == "contains" and len(t["args"]) >= 2:
+                    kk = {k for k in op_kind(t["args"][0]) if k in SIDE}
+                    hk = {k for k in op_kind(t["args"][1]) if k in SIDE}
+                    if kk and hk:
+                        nsinks += 1
+                        ok = bool(kk & hk)
+                        report("KIND-CMP", "contains|%s|%s" % ("/".join(sorted(kk)), "/".join(sorted(hk))),
+                               ok, fa.loc(b),
+                               "membership of a %s id is tested in a collection of %s ids" % (
+                                   "/".join(sorted(hk)), "/".join(sorted(kk)))
+                               + ("" if ok else " - the id is looked up in the other side's id set"))
+                # maps stored in a field whose keys have a declared side
+                if c.get("name") in ("get", "get_mut", "contains_key", "remove", "insert", "entry") \
+                        and len(t["args"]) >= 2:
+                    mk = {k[5:] for k in op_kind(t["args"][0]) if k in MAPK}
+                    hk = {k for k in op_kind(t["args"][1]) if k in SIDE}
+                    if mk and hk:
+                        nsinks += 1
+                        ok = bool(mk & hk)
+                        report("KIND-INDEX", "field-map|%s" % "/".join(sorted(mk)), ok, fa.loc(b),
+                               "map keyed by %s ids is accessed with a %s key" % (
+                                   "/".join(sorted(mk)), "/".join(sorted(hk)))
+                               + ("" if ok else " - the key comes from the other side's id space"))
                 # formatted output into a kinded writer
                 if any(x.endswith("Write::write_fmt") for x in ps) and len(t["args"]) >= 2:
                     wk = {k for k in op_kind(t["args"][0]) if k in SIDE}
@@ -436,6 +480,32 @@ class KindAnalysis:
                     # the analysis state (_place_kind) is per call: recurse after finishing
                     self._pending.append((cf, caps))
         return nsinks
+
+    def source_index_kind(self, fa, op):
+        """Index kind of the field an iterator operand iterates over (through iter/iter_mut/
+        deref calls and reborrows)."""
+        pl = op_place(op)
+        for _ in range(10):
+            if pl is None:
+                return None
+            k = self.index_kind_of(fa, pl)
+            if k:
+                return k
+            if [e for e in pl["p"] if e != "*"]:
+                return None
+            d = fa.single_def(pl["l"])
+            if d is None:
+                return None
+            if d[2] == "call":
+                nm = (callee_of(d[3]) or {}).get("name")
+                if nm not in ("iter", "iter_mut", "deref", "deref_mut", "into_iter", "as_slice",
+                              "as_mut_slice", "by_ref"):
+                    return None
+                pl = op_place(d[3]["args"][0]) if d[3]["args"] else None
+            else:
+                rv = d[3]
+                pl = rv["place"] if rv["k"] == "ref" else op_place(rv["op"]) if rv["k"] == "use" else None
+        return None
 
     def index_kind_of(self, fa, pl):
         """Declared index kind of the container a place refers to (through references)."""
